@@ -6,6 +6,7 @@ import (
 	"go/ast"
 	"go/parser"
 	"go/token"
+	"math"
 	"regexp"
 	"strings"
 
@@ -224,6 +225,91 @@ func c05eval(e ast.Expr, env map[string]c05val) c05val {
 		}
 	}
 	panic("c05eval: unsupported node")
+}
+
+// c05constSafe reports whether the expression, with its operands written as LITERALS, means the same as with int32
+// variables: every intermediate value fits int32 and no shift reaches the width. (With literals the expression is a
+// constant expression: Go evaluates it exactly, and what goatlang does with constants wider than 32 bits is outside
+// the subset; `1 << 63 * -1` is such a case.)
+func c05constSafe(e ast.Expr, env map[string]c05val) (ok bool) {
+	defer func() {
+		if recover() != nil {
+			ok = true // a division by zero or a negative shift count fails the same way in both spellings
+		}
+	}()
+	ok = true
+	var ev func(e ast.Expr) int64
+	fit := func(v int64) int64 {
+		if v < math.MinInt32 || v > math.MaxInt32 {
+			ok = false
+		}
+		return v
+	}
+	ev = func(e ast.Expr) int64 {
+		switch x := e.(type) {
+		case *ast.Ident:
+			v := env[x.Name]
+			if v.t == tBool {
+				return 0
+			}
+			return int64(v.i)
+		case *ast.ParenExpr:
+			return ev(x.X)
+		case *ast.UnaryExpr:
+			v := ev(x.X)
+			switch x.Op {
+			case token.SUB:
+				return fit(-v)
+			case token.XOR:
+				return fit(^v)
+			}
+			return 0
+		case *ast.BinaryExpr:
+			l, r := ev(x.X), ev(x.Y)
+			switch x.Op {
+			case token.ADD:
+				return fit(l + r)
+			case token.SUB:
+				return fit(l - r)
+			case token.MUL:
+				return fit(l * r)
+			case token.QUO:
+				return fit(l / r)
+			case token.REM:
+				return fit(l % r)
+			case token.SHL:
+				if r < 0 {
+					panic("negative shift")
+				}
+				if r > 31 {
+					ok = false
+					return 0
+				}
+				return fit(l << uint(r))
+			case token.SHR:
+				if r < 0 {
+					panic("negative shift")
+				}
+				if r > 31 {
+					ok = false
+					return 0
+				}
+				return l >> uint(r)
+			case token.AND:
+				return l & r
+			case token.AND_NOT:
+				return l &^ r
+			case token.OR:
+				return l | r
+			case token.XOR:
+				return l ^ r
+			}
+			return 0
+		}
+		return 0
+	}
+	ev(e)
+	return ok
 }
 
 func c05evalSafe(e ast.Expr, env map[string]c05val) (s string) {
@@ -452,6 +538,9 @@ func c05run(r *report.Run) {
 						// (different instruction windows: PUSH/CONST and LOCALGET instead of GLOBALGET)
 						if used <= 2 {
 							for _, mode := range []string{"literals", "locals", "hex", "octal", "binary"} {
+								if mode != "locals" && !c05constSafe(e, env) {
+									continue
+								}
 								src2 := c05respell(j.src, env, names, mode)
 								if mode == "octal" {
 									src2 = c05multiline(src2) // and this spelling is written over several lines
